@@ -130,16 +130,17 @@ func (p MembershipProof) DigestVerify(digest hashing.Digest, snapshot *Snapshot)
 		return false
 	}
 
-	hyperCorrect := p.HyperProof.Verify(digest, snapshot.HyperDigest)
-
-	if p.Exists {
-		if p.ActualVersion <= p.QueryVersion {
-			historyCorrect := p.HistoryProof.Verify(digest, snapshot.HistoryDigest)
-			return hyperCorrect && historyCorrect
-		}
+	// Only a claim of existence at a version not later than the queried one
+	// is bound by both trees. Anything else (absence, or an insertion after
+	// the queried version) would be backed by the hyper proof alone, whose
+	// shortcut leaves do not bind the key, so it cannot be accepted.
+	if !p.Exists || p.ActualVersion > p.QueryVersion {
+		return false
 	}
 
-	return hyperCorrect
+	hyperCorrect := p.HyperProof.Verify(digest, snapshot.HyperDigest)
+	historyCorrect := p.HistoryProof.Verify(digest, snapshot.HistoryDigest)
+	return hyperCorrect && historyCorrect
 }
 
 // Verify verifies a proof and answer from QueryMembership. Returns true if the
